@@ -272,7 +272,12 @@ def run(ctx):
     facts = {('truth', T('call', 'isinstance', C(0), item, T('name', 'tuple'))): True}
     for a in (T('a0'), T('a1'), cols):
         facts[('is',) + tuple(sorted([C(None), a], key=repr))] = False
-    outs = I.run(gi, env={gi.params[0]: me, gi.params[1]: item}, heap=heap, facts=facts)
+    p2_cut = False
+    try:
+        outs = I.run(gi, env={gi.params[0]: me, gi.params[1]: item}, heap=heap, facts=facts)
+    except proto.PathLimit as e_:
+        ctx.undecided('C02.P2', gi, 'the walk of reader[rows, cols] exceeded its path budget (%s): nothing is concluded for this group' % e_)
+        outs, p2_cut = [], True
     ctx.analysed['paths'] += len(outs)
     p2 = []
     n_clone = n_read = 0
@@ -325,11 +330,13 @@ def run(ctx):
             for e in st.trace:
                 if e[0] == 'store' and e[1] == me:
                     p2.append('reader[rows, cols] writes attribute %s of the reader itself' % e[2])
-    if not n_clone:
+    if not n_clone and not p2_cut:
         p2.append('no path of reader[:, cols] returns a derived reader')
-    if not n_read:
+    if not n_read and not p2_cut:
         p2.append('no path of reader[rows, cols] reads data')
-    if p2:
+    if p2_cut:
+        pass
+    elif p2:
         for pmsg in sorted(set(p2))[:3]:
             ctx.violated('C02.P2', gi, pmsg[:150], pmsg)
     else:
